@@ -10,6 +10,7 @@ mod c11;
 mod c13;
 mod c14;
 mod c17;
+mod iface;
 
 use std::{
     collections::BTreeMap,
@@ -56,7 +57,7 @@ impl Externs {
                 }
             }
         }
-        for need in ["truc", "truc_runtime", "vtypes", "usertypes", "static_assertions", "serde", "serde_json", "bincode"] {
+        for need in ["truc", "truc_runtime", "vtypes", "usertypes", "static_assertions", "serde", "serde_json", "bincode", "reccore"] {
             if !map.contains_key(need) {
                 vcommon::machinery_error(&format!("rlib of {} not found in {}", need, path));
             }
@@ -131,6 +132,9 @@ fn main() {
     let args = vcommon::parse_args();
     vcommon::quiet_panics();
     let ext = Externs::load();
+    if args.rest.iter().any(|a| a == "--iface") {
+        std::process::exit(iface::main(&args, &ext));
+    }
     let code = match args.property.as_str() {
         "C11" => c11::main(&args, &ext),
         "C13" => c13::main(&args, &ext),
